@@ -716,6 +716,7 @@ class Hypergraph:
                     warn(f"uid {idx} already exists, cannot add edge {members}.")
                     continue
                 try:
+                    members = list(members)  # may be a one-shot iterator
                     member_set = set(members)
                 except TypeError as e:
                     raise XGIError("Invalid ebunch format") from e
@@ -741,6 +742,8 @@ class Hypergraph:
         except StopIteration:
             return
         try:
+            if iter(first_edge) is first_edge:  # a one-shot iterator: keep what is read
+                first_edge = list(first_edge)
             first_elem = list(first_edge)[0]
         except (TypeError, IndexError):
             # an empty first edge can only be a plain (format 1) edge
@@ -780,6 +783,7 @@ class Hypergraph:
                 warn(f"uid {idx} already exists, cannot add edge {members}.")
             else:
                 try:
+                    members = list(members)  # may be a one-shot iterator
                     member_set = set(members)
                 except TypeError as e:
                     raise XGIError("Invalid ebunch format") from e
